@@ -21,7 +21,7 @@ LEVEL_NOTE = ("Trusted: Lean kernel (+ standard axioms); that reads are pure in 
 TECHNIQUE = "Lean 4 proof that reads are state-preserving in the heap model; metamorphic correspondence with inserted reads"
 DESIGN_REF = "7"
 LEAN_MODULES = ["NpsVerif.Props.C10"]
-KERNELS = ()
+KERNELS = ("view2_ends", "calc_lengths", "pos_col_slice", "col_slice_slice", "col_slice_int")
 RULE = ("cases = random histories (as C06: 30% select -> write-to-source -> read-selection, 30% derivation chains with writes into "
         "intermediate arrays, incl. writes through the numpy array an array was constructed over) x random insertion of 1..6 "
         "read-only operations of 12 kinds on arbitrary live arrays at arbitrary positions; every case runs the history twice on real "
